@@ -11,7 +11,7 @@ CONSTANTS Level          \* 1 = quick domain, 2 = thorough domain
 Null == [t |-> "null"]
 Num(b) == [t |-> "num", b |-> b]
 Str(c) == [t |-> "str", c |-> c]
-LeafDocs == {Null, [t |-> "bool", b |-> TRUE], Num(<<49>>), Num(<<49, 46, 53>>), Str(<<115>>)}
+LeafDocs == {Null, [t |-> "bool", bv |-> TRUE], Num(<<49>>), Num(<<49, 46, 53>>), Str(<<115>>)}
 Keys == {"a", "b", "c"}
 SeqsUpTo(S, w) == UNION {[1..k -> S] : k \in 0..w}
 ArrDoc(items) == [t |-> "arr", items |-> items]
@@ -26,8 +26,8 @@ DocSeq == SetToSeq(Docs)
 
 \* ---- schemas ----
 R(n, v) == [n |-> n, v |-> v]
-BT == [t |-> "bool", b |-> TRUE]
-BF == [t |-> "bool", b |-> FALSE]
+BT == [t |-> "bool", bv |-> TRUE]
+BF == [t |-> "bool", bv |-> FALSE]
 Lit(v, rules) == [t |-> "lit", v |-> v, rules |-> rules]
 NullableOpts == {<<>>, <<R("nullable", BT)>>}
 LeafNodes == {Lit(v, r) : v \in LeafDocs, r \in NullableOpts}
